@@ -8,6 +8,18 @@ def repo_fix_commits():
     return []
 
 CHECKS = {
+ "C06": ("exploration", "runtime monitoring of classic-LZMA writer histories incl. the explicit-size contract, with a reference decoder judging the header",
+   "Runs lzma.Writer over all 225 property codes x both matchers and random (config, termination mode, sink kind, data, partition) cases, round-trips through lzma.Reader, compares the 13-byte header with what the independent decoder finds encoded, and for every sized case drives a short-write and a surplus-write history.",
+   "Sampled quantifier; internal/ref decides how many bytes / whether a marker are encoded.", "4 C06"),
+ "C07": ("exploration", "differential runtime monitoring against liblzma and an independent reference, both directions",
+   "Writer output (lc+lp<=4) is decoded by liblzma's alone decoder and the strict reference and its header fields are compared with configuration and observed distances; the reader is fed the frozen xz-utils corpus, fresh liblzma encodings and generated streams in all three termination modes (any lc/lp/pb, zero length included), each admitted only when the references agree.",
+   "internal/ref + liblzma 5.4.1 as reference implementation; lc+lp>4 streams are arbitrated by internal/ref alone (liblzma refuses them).", "4 C07"),
+ "C08": ("exploration", "sequential-history monitoring against a reference model (one-client linearizability degenerate case), prefix decoded at every Flush",
+   "Generated call histories over Write/Flush/Close (and calls after Close) on lzma.Writer2; after every successful Flush the sink prefix must decode (reference decoder in open mode and lzma.Reader2) to exactly the bytes written so far, a Flush with nothing pending must emit nothing, and after Close Reader2, the strict reference and liblzma must all return everything written.",
+   "Sampled histories/configs; internal/ref and liblzma as decoders.", "4 C08"),
+ "C16": ("exploration", "exhaustive enumeration of chunk-kind sequences against a specification automaton; monitoring of emitted chunk headers",
+   "All sequences over the chunk kinds up to length 5 (quick) / 7 (thorough), with and without end chunk, and all 256 control bytes in first and second position are realised as concrete streams by the reference encoder and fed to lzma.Reader2; accept/reject, delivered bytes and rejection point are compared with a two-flag specification automaton. Writer2 outputs under random histories are parsed and checked for legality and the chunk size limits.",
+   "The automaton in legalPrefix() is the specification; legal realisations are arbitrated by internal/ref and liblzma before use.", "4 C16"),
  "C01": ("exploration", "runtime monitoring of write/read round trips at the API boundary over generated configurations, inputs and call partitions",
    "Drives the real xz.Writer through generated (config, data family, length, Write partition) cases with a recording sink, checks every call result, reads the sink back with xz.Reader, and issues Write/Close after Close. Held-on-what-was-observed: the evidence lists the distinct class tuples executed, chunk-kind sets and block counts seen.",
    "Sampled quantifier (inputs x configs x partitions); harness sink and Go runtime trusted.", "4 C01"),
